@@ -5,20 +5,74 @@
    skipped.  The matrix itself is re-derived too (sequence_distance.c d_estimation / calc_distance): entry (i, j), i < j in
    canonical order, is the semi-global edit distance (Myers!SemiGlobal) of the j-th sequence as pattern in the i-th as text,
    on the guide-tree alphabet (DNA codes, or the 13 classes for protein), plus min(10000, (len_i + len_j) div 2) / 10000.
-   Diagnostic only (KVDIV). *)
-EXTENDS GuideTree, Alphabet, Json, IOUtils
+   Diagnostic only (KVDIV).
+   Front end (module Anchor, events Anchors / Dm with pair = 0 / KmSplit with members, hook level 2): the anchors the code picked
+   are well-formed for the lengths of the Sorted event (Anchor!WellFormed, Cap = 32); every entry of the numseq x anchors matrix
+   is Anchor!AnchorDist of the two sequences (re-derived when the dynamic programmes fit a budget of 3 000 000 cells); and every
+   try of split2 that did not end in the halves fallback returned two clusters in which no member is nearer to the mean of the
+   other cluster than to its own by more than the rounding slack (Anchor!Misplaced on the logged matrix, coarsened so that
+   32-bit integers suffice), partitions the samples and keeps their order.  Also diagnostic (KVDIV). *)
+EXTENDS GuideTree, Alphabet, Json, IOUtils, SequencesExt
 M == INSTANCE Myers
+A == INSTANCE Anchor
 Trace == ndJsonDeserialize(IOEnv.TRACE)
 VARIABLES l, dm, inp, ctx, viol
 vars == <<l, dm, inp, ctx, viol>>
 Ev == Trace[l]
 Is(e) == l <= Len(Trace) /\ Trace[l].e = e
-Init == l = 1 /\ dm = [k |-> "none"] /\ inp = <<>> /\ ctx = [bio |-> -1, ranks |-> <<>>] /\ viol = {}
-TIn == /\ Is("Obj") /\ Ev.tag = "in" /\ l' = l + 1 /\ inp' = Ev.seqs /\ ctx' = [bio |-> -1, ranks |-> <<>>] /\ UNCHANGED dm /\ viol' = {}
+Init == l = 1 /\ dm = [k |-> "none"] /\ inp = <<>> /\ ctx = [bio |-> -1, ranks |-> <<>>, lens |-> <<>>, anch |-> <<>>, X |-> <<>>] /\ viol = {}
+TIn == /\ Is("Obj") /\ Ev.tag = "in" /\ l' = l + 1 /\ inp' = Ev.seqs /\ ctx' = [bio |-> -1, ranks |-> <<>>, lens |-> <<>>, anch |-> <<>>, X |-> <<>>] /\ UNCHANGED dm /\ viol' = {}
 TRunBegin == /\ Is("RunBegin") /\ l' = l + 1 /\ ctx' = [ctx EXCEPT !.bio = Ev.biotype] /\ UNCHANGED <<dm, inp>> /\ viol' = {}
-TSorted == /\ Is("Sorted") /\ l' = l + 1 /\ ctx' = [ctx EXCEPT !.ranks = Ev.ranks] /\ UNCHANGED <<dm, inp>> /\ viol' = {}
+TSorted == /\ Is("Sorted") /\ l' = l + 1 /\ ctx' = [ctx EXCEPT !.ranks = Ev.ranks, !.lens = Ev.lens, !.anch = <<>>, !.X = <<>>] /\ UNCHANGED <<dm, inp>> /\ viol' = {}
 Abs(x) == IF x < 0 THEN -x ELSE x
-TDm == /\ Is("Dm") /\ l' = l + 1 /\ UNCHANGED <<inp, ctx>>
+SumSeq(q) == FoldLeft(LAMBDA acc, x : acc + x, 0, q)
+MaxSeq(q) == FoldLeft(LAMBDA acc, x : IF x > acc THEN x ELSE acc, 0, q)
+TAnchors ==
+    /\ Is("Anchors") /\ l' = l + 1 /\ UNCHANGED <<dm, inp>>
+    /\ ctx' = [ctx EXCEPT !.anch = Ev.a]
+    /\ IF Len(ctx.lens) = Ev.numseq /\ Ev.numseq >= 1
+       THEN /\ viol' = IF A!WellFormed(32, ctx.lens, Ev.a) THEN {} ELSE {"Anchor.selection-differs"}
+            /\ PrintT(<<"KVANCH", l, Ev.n>>)
+            /\ IF viol' # {} THEN PrintT(<<"KVDIV", l, "anchors", viol'>>) ELSE TRUE
+       ELSE viol' = {}
+(* the numseq x anchors matrix: re-derived, and kept (coarsened) for the fixed-point check of the k-means tries *)
+TDm0 ==
+    /\ Is("Dm") /\ Ev.pair = 0 /\ l' = l + 1 /\ UNCHANGED <<dm, inp>>
+    /\ IF "d" \in DOMAIN Ev /\ Len(ctx.anch) = Ev.cols /\ Len(ctx.lens) = Ev.rows
+       THEN LET n == Ev.rows  k == Ev.cols
+                unit == MaxSeq(Ev.d) \div 4000 + 1
+                X == [i \in 1..n |-> [j \in 1..k |-> Ev.d[(i - 1) * k + j] \div unit]]
+                sl == SumSeq(ctx.lens)
+                sa == SumSeq([j \in 1..k |-> ctx.lens[ctx.anch[j] + 1]])
+                fits == Len(inp) = n /\ Len(ctx.ranks) = n /\ ctx.bio \in {0, 1} /\ sl <= 40000 /\ sa <= 40000 /\ sl * sa <= 3000000
+                alpha == IF ctx.bio = 1 THEN A_DNA ELSE A_RED13
+                sq(c) == LET raw == inp[ctx.ranks[c] + 1] IN [x \in 1..Len(raw) |-> Code(alpha, raw[x])]
+                bad == IF fits THEN {p \in (1..n) \X (1..k) :
+                                        LET md == A!AnchorDist(sq(p[1]), sq(ctx.anch[p[2]] + 1))
+                                        IN Abs(Ev.d[(p[1] - 1) * k + p[2]] - md) > (IF md > 2000000 THEN 1 ELSE 0)}
+                       ELSE {}
+            IN /\ ctx' = [ctx EXCEPT !.X = X]
+               /\ viol' = IF bad # {} THEN {"Anchor.distance-matrix-differs"} ELSE {}
+               /\ IF fits THEN PrintT(<<"KVDM0", l, n * k>>) ELSE TRUE
+               /\ IF bad # {} THEN PrintT(<<"KVDIV", l, "anchor-distances", viol'>>) /\ PrintT(<<"KVINFO", l, bad>>) ELSE TRUE
+       ELSE ctx' = [ctx EXCEPT !.X = <<>>] /\ viol' = {}
+TKmSplit ==
+    /\ Is("KmSplit") /\ l' = l + 1 /\ UNCHANGED <<dm, inp, ctx>>
+    /\ IF "s" \in DOMAIN Ev /\ ctx.X # <<>> /\ \A i \in 1..Len(Ev.s) : Ev.s[i] + 1 \in 1..Len(ctx.X)
+       THEN LET idx == [i \in 1..Len(Ev.s) |-> Ev.s[i] + 1]
+                cl == [i \in 1..Len(Ev.sl) |-> Ev.sl[i] + 1]
+                cr == [i \in 1..Len(Ev.sr) |-> Ev.sr[i] + 1]
+                part == A!Partition(idx, cl, cr)
+                pos == [x \in ToSet(idx) |-> CHOOSE i \in 1..Len(idx) : idx[i] = x]
+                kept(c) == \A i \in 1..(Len(c) - 1) : pos[c[i]] < pos[c[i + 1]]
+                mis == IF part /\ Ev.degenerate = 0 THEN A!Misplaced(ctx.X, cl, cr) ELSE {}
+            IN /\ viol' = (IF ~part THEN {"Anchor.kmeans-not-a-partition"} ELSE {})
+                          \cup (IF part /\ ~(kept(cl) /\ kept(cr)) THEN {"Anchor.kmeans-order-not-kept"} ELSE {})
+                          \cup (IF mis # {} THEN {"Anchor.kmeans-not-a-fixed-point"} ELSE {})
+               /\ PrintT(<<"KVKM", l, Len(idx), Ev.degenerate>>)
+               /\ IF viol' # {} THEN PrintT(<<"KVDIV", l, "kmeans", viol'>>) /\ PrintT(<<"KVINFO", l, mis>>) ELSE TRUE
+       ELSE viol' = {}
+TDm == /\ Is("Dm") /\ Ev.pair # 0 /\ l' = l + 1 /\ UNCHANGED <<inp, ctx>>
        /\ dm' = IF Ev.pair = 1 /\ "d" \in DOMAIN Ev /\ Ev.rows <= 8 /\ Ev.rows >= 2 THEN [k |-> "dm", n |-> Ev.rows, d |-> Ev.d] ELSE [k |-> "none"]
        /\ IF Ev.pair = 1 /\ "d" \in DOMAIN Ev /\ Ev.rows <= 8 /\ Ev.rows >= 2 /\ Len(inp) = Ev.rows /\ Len(ctx.ranks) = Ev.rows /\ ctx.bio \in {0, 1}
           THEN LET n == Ev.rows
@@ -43,9 +97,9 @@ TTree ==
             IN IF n > 2 /\ MinGap(st) < 4 * 64 THEN PrintT(<<"KVSKIP", l, "upgma", "near-tie">>) /\ viol' = {}
                ELSE /\ viol' = IF Clades(n, D0, 10) # TaskClades(n, tasks) THEN {"GuideTree.upgma-clades-differ"} ELSE {}
                     /\ IF viol' # {} THEN PrintT(<<"KVDIV", l, "upgma", viol'>>) ELSE TRUE
-TOther == /\ l <= Len(Trace) /\ Ev.e \notin {"Dm", "Tree", "RunBegin", "Sorted"} /\ ~(Ev.e = "Obj" /\ Ev.tag = "in")
+TOther == /\ l <= Len(Trace) /\ Ev.e \notin {"Dm", "Tree", "RunBegin", "Sorted", "Anchors", "KmSplit"} /\ ~(Ev.e = "Obj" /\ Ev.tag = "in")
           /\ l' = l + 1 /\ UNCHANGED <<dm, inp, ctx>> /\ viol' = {}
-Next == TIn \/ TRunBegin \/ TSorted \/ TDm \/ TTree \/ TOther
+Next == TIn \/ TRunBegin \/ TSorted \/ TAnchors \/ TDm0 \/ TKmSplit \/ TDm \/ TTree \/ TOther
 Spec == Init /\ [][Next]_vars
 Accepted == TLCGet("stats").diameter - 1 = Len(Trace)
 =============================================================================
